@@ -56,24 +56,35 @@ theorem witness_unguarded_alt_alias :
        | .error _ => true) = false := by
   decide
 
-/-! ### finding `filter:D_scale_nan_panic` -/
+/-! ### fixed finding `filter:D_scale_nan_panic` (now `FailedToApplyFilter`) -/
 
-/-- `scale` panics (`NotNan::new(..).expect("NaN")`) whenever the captured text parses to NaN. -/
-theorem witness_scale_nan_panic (P : Prims) (s : Str) (x k : Nat) (hp : P.parseF64 s = some (some x))
-    (hx : F64.isNaN x = true) : applyFilter P (.str s) (.scale k) = .panic := by
+/-- `scale` fails (it used to panic) whenever the captured text parses to NaN. -/
+theorem fixed_scale_nan (P : Prims) (s : Str) (x k : Nat) (hp : P.parseF64 s = some (some x))
+    (hx : F64.isNaN x = true) : applyFilter P (.str s) (.scale k) = .failed := by
   simp only [applyFilter, hp, hx, ↓reduceIte, scaleBy]
 
 /-- … and whenever the product is NaN: `inf` scaled by 0. -/
-theorem witness_scale_inf_zero_panic (P : Prims) (s : Str)
-    (hp : P.parseF64 s = some (some F64.infBits)) : applyFilter P (.str s) (.scale 0) = .panic := by
+theorem fixed_scale_inf_zero (P : Prims) (s : Str)
+    (hp : P.parseF64 s = some (some F64.infBits)) : applyFilter P (.str s) (.scale 0) = .failed := by
   have : F64.isNaN F64.infBits = false := by decide
   simp only [applyFilter, hp, this]
   decide
 
-/-! ### finding `compile:D_nullif_noargs_panic` -/
+/-- no filter of the model panics any more. -/
+theorem scaleBy_no_panic (k : Nat) (x : Option Nat) : scaleBy k x ≠ .panic := by
+  simp only [scaleBy]
+  cases x <;> cases ((F64.mul k f64_1000).bind fun y => F64.div y f64_1000) <;> simp
+  split <;> simp
 
-theorem witness_nullif_noargs_panic :
-    ruleSource P0 [(cs!"d", cs!"[a-z]+")] cs!"%{d:x:nullIf()}" = .panic := by decide
+theorem applyFilter_no_panic (P : Prims) (v : SV) (f : Filter) : applyFilter P v f ≠ .panic := by
+  unfold applyFilter
+  repeat' split
+  all_goals first | exact scaleBy_no_panic _ _ | simp
+
+/-! ### fixed finding `compile:D_nullif_noargs_panic` (now `InvalidFunctionArguments`) -/
+
+theorem fixed_nullif_noargs :
+    ruleSource P0 [(cs!"d", cs!"[a-z]+")] cs!"%{d:x:nullIf()}" = .err .invalidArgs := by decide
 
 /-! ### non-vacuity -/
 
